@@ -46,6 +46,13 @@ SHIPPED_CASES = [
     # one test selected through a nested set (normal.gui) and needed as setup of a test of another set, expanded lazily
     ("only leaves..tutorial_get..explicit_noop,normal..tutorial_gui\n", {"vm1": "only CentOS\n", "vm2": "only Win10\n",
                                                                         "vm3": "only Ubuntu\n"}, ["net1"], "lazy"),
+    # the same kind of selection with two workers that start on different flat nodes
+    ("only normal..tutorial_gui..client_noop,leaves..tutorial_get..explicit_noop\n",
+     {"vm1": "only CentOS\n", "vm2": "only Win10\n", "vm3": "only Ubuntu\n"}, ["net1", "net2"], "lazy"),
+    # the stateless noop test itself selected (under `all`): its composite nodes share their leading variants with the flat
+    # shared root `all.internal.stateless.noop`
+    ("only all..noop,leaves..tutorial1\n", {"vm1": "only CentOS\n", "vm2": "only Win10\n", "vm3": "only Ubuntu\n"},
+     ["net1"], "eager"),
 ]
 
 
@@ -383,7 +390,7 @@ def correspondence(ctx):
         rng.shuffle(ship)
         if not thorough:
             # always include the multi-worker restricted case and the mixed-set lazy case
-            ship = [6, 8] + [i for i in ship if i not in (6, 8)][:n_shipped - 1]
+            ship = [6, 8, 10] + [i for i in ship if i not in (6, 8, 10)][:n_shipped - 1]
         for i in ship:
             if ctx.remaining(budget) < 0:
                 ctx.notes.append("time budget: shipped-suite cases cut short")
